@@ -157,8 +157,15 @@ class Gen:
             self.pinned.add(t)
             return {"k": "enum", "v": r.choice(self.enums[t]["values"])["name"]}
         if t in self.scalars:
-            if r.random() < 0.3:
+            c = r.random()
+            if c < 0.2:
                 return {"k": "bool", "v": r.random() < 0.5}
+            if c < 0.4:
+                return {"k": "int", "v": str(r.choice([0, 5, -12, 2147483648, -99999999999, 42]))}
+            if c < 0.55:
+                return {"k": "float", "v": r.choice(["1.5", "-0.25", "10.0", "2.50", "0.001", "123456.789"])}
+            # strings whose text is a number literal are the open finding
+            # custom-scalar-numeric-string-default: corpus only
             return {"k": "str", "v": r.choice(["abc", "2020-01-01", "x y", "not a number", ""]), "b": False}
         if t in self.inputs:
             self.pinned.add(t)
